@@ -893,8 +893,8 @@ std::vector<shape_t> make_shapes()
                  opS("abc"), opS("nan"), opS("inf"), opS("-inf"), opS("3abc"), opS("0.5x"), opS("type2"), opS("typeX"),
                  opS("1e999"), opS("1e-999"), opS("0.99999999999999999999")};
         add_common_tail(s.ops);
-        core_of(s, {opI64(0), opI64(1), opF64(0.0), opF64(DMIN), opF64(0.1), opF64(std::nextafter(1.0, 0.0)), opF64(1.0),
-                    opF64(std::nextafter(1.0, 2.0)), opF64(NaN), opF64(INF), opS("0.5"), opS("1e-1"), opS("abc"), opS("nan"),
+        core_of(s, {opI64(1), opF64(0.0), opF64(DMIN), opF64(0.1), opF64(std::nextafter(1.0, 0.0)), opF64(1.0),
+                    opF64(std::nextafter(1.0, 2.0)), opF64(NaN), opF64(INF), opS("0.5"), opS("1e-1"), opS("abc"),
                     opT(ot::WRITE_READ), opT(ot::COPY)});
         shapes.push_back(s);
     }
@@ -923,15 +923,15 @@ std::vector<shape_t> make_shapes()
                 s.ops.push_back(opPI64(a, b));
             }
         }
-        for (const auto& o : {opPI64(-1, 5), opPI64(5, 11), opPI64(-1, 11), opPI64(5, 5), opPI64(7, 3), opPI64(2, 8),
-                              opPI32(1, 9), opPI32(9, 1), opPI32(0, 10), opPI32(4, 4),
-                              opPF64(1.0, 9.0), opPF64(9.0, 1.0), opPF64(0.0, 10.0), opPF64(6.0, 6.0), opPF64(1.5, 9.5),
-                              opPF64(NaN, 5.0), opPF64(1.0, INF), opPF64(-INF, 5.0), opPF64(1e300, 1e300),
-                              opI64(5), opI32(5), opF64(5.0),
-                              opS("5,7"), opS("7;5"), opS("5"), opS("0.5"), opS("1e-1"), opS(""), opS("abc"), opS("nan"),
-                              opS("1,9"), opS("0,10"), opS("0:0"), opS("5|5"), opS("1 9"), opS("2/8"), opS("1,2,3"), opS("5,"),
-                              opS(",5"), opS("3abc,7"), opS("abc,7"), opS("7,abc"), opS("0.5,7"), opS("5,,7"), opS("type2"),
-                              opS("typeX"), opS("nan,nan"), opS("1,99999999999999999999")})
+        for (const auto& o : {opPI64(-1, 5), opPI64(5, 11), opPI64(5, 5), opPI64(7, 3),
+                              opPI32(1, 9), opPI32(0, 10), opPI32(4, 4),
+                              opPF64(1.0, 9.0), opPF64(0.0, 10.0), opPF64(6.0, 6.0), opPF64(1.5, 9.5),
+                              opPF64(NaN, 5.0), opPF64(1.0, INF),
+                              opI64(5), opF64(5.0),
+                              opS("5,7"), opS("7;5"), opS("5"), opS("0.5"), opS(""), opS("abc"),
+                              opS("1,9"), opS("0,10"), opS("0:0"), opS("5|5"), opS("1 9"), opS("1,2,3"), opS("5,"),
+                              opS(",5"), opS("3abc,7"), opS("abc,7"), opS("0.5,7"), opS("5,,7"), opS("type2"),
+                              opS("nan,7"), opS("1,99999999999999999999")})
         {
             s.ops.push_back(o);
         }
@@ -1305,6 +1305,16 @@ std::string run_history(const shape_t& sh, const std::vector<int>& hist, report_
             if (had_accept && had_reject)
             {
                 ++r.nontrivial;
+            }
+            static uint64_t nsample = 0;
+            if (++nsample % 40009U == 1U)
+            {
+                r.sample(jobj({{"shape", jstr(sh.name)},
+                               {"history", jarr(hist.begin(), hist.end(),
+                                                [&](const int i) { return jstr(sh.ops[static_cast<size_t>(i)].label()); })},
+                               {"reference_verdict_of_last", jstr(e.why)},
+                               {"threw", threw ? "true" : "false"},
+                               {"state_after", jstr(after.canon)}}));
             }
         }
         cur = after;
